@@ -175,10 +175,13 @@ def worker_waiting(args):
         sc["undecodable_frame_in_front_of_message"] = bad_at
         r = Run(binpath)
         try:
-            ok = True
+            ok = True; carry = b""
             for mi, (f, cuts, body) in enumerate(zip(frames, plan, bodies)):
                 segs = [f[a:b] for a, b in zip([0] + cuts, cuts + [len(f)])]
                 if mi == bad_at: segs = [bad + f]
+                if carry: segs[0] = carry + segs[0]; carry = b""
+                if b'"id"' not in body and mi + 1 < len(frames) and mi + 1 != bad_at and srng.random() < .3:
+                    carry = b"".join(segs); continue               # this notification shares one write with the message behind it
                 for sg in segs:
                     t0 = time.monotonic()
                     while not blocked_on_stdin(r.p.pid):
